@@ -119,8 +119,8 @@ fn judge(
 
 fn fault_case(rec: &mut Rec, ctx: &Ctx, idx: u64, rng: &mut ChaCha20Rng) {
   let t = if idx % 6 == 5 { 1 } else { rng.gen_range(2..=6u32) };
-  let ml = *pick(rng, &[1usize, 4, 16, 32, 32, 33, 64]);
-  let rl = *pick(rng, &[1usize, 8, 32, 32, 40]);
+  let ml = if rng.gen_bool(0.3) { rng.gen_range(0..70) } else { *pick(rng, &[1usize, 4, 16, 32, 32, 33, 64]) };
+  let rl = if rng.gen_bool(0.3) { rng.gen_range(0..70) } else { *pick(rng, &[1usize, 8, 32, 32, 40]) };
   let a = match make_sharing(rng, t, ml, rl) {
     Some(s) => s,
     None => {
